@@ -16,7 +16,18 @@ var SemanticEdits = []string{"rename-call", "change-literal", "add-stage-in", "a
 	// declared type of a pipeline input whose every use is a pass-through to a same-typed retyped chain is not attempted
 	"rename-param-out",
 	// shape of a collection literal (at any depth of a literal binding)
-	"literal-array-drop-last", "literal-array-append", "literal-map-drop-key", "literal-map-add-key"}
+	"literal-array-drop-last", "literal-array-append", "literal-map-drop-key", "literal-map-add-key",
+	// same call name, another callee with a different signature, both stages declared on both sides
+	"switch-callee-extra-out", "switch-callee-toggle-split"}
+
+// PreEdit names the edit that is applied to BOTH sides before kind is applied
+// to the edited side ("" for none).
+func PreEdit(kind string) string {
+	if strings.HasPrefix(kind, "switch-callee-") {
+		return "declare-alt-" + strings.TrimPrefix(kind, "switch-callee-")
+	}
+	return ""
+}
 
 // UnspecifiedEdits: whether they change the meaning is not decided by the
 // statement of C15 (calling a different stage with an identical signature
@@ -395,6 +406,48 @@ func ApplyEdit(p *Program, kind string, site int) bool {
 						return ApplyEdit(p, kind, site+1000)
 					}
 					c.Disabled = alt
+					return true
+				}
+			}
+		}
+	case "switch-callee-extra-out", "switch-callee-toggle-split", "declare-alt-extra-out", "declare-alt-toggle-split":
+		// The call keeps its name (alias) but calls another stage whose
+		// signature differs (an extra output / split behaviour).  The
+		// "declare-alt-*" forms only add the declaration of that other stage
+		// (unused), so that both sides of a comparison declare both stages.
+		variant := kind[strings.Index(kind, "-alt-")+5:]
+		declareOnly := strings.HasPrefix(kind, "declare-alt-")
+		if !declareOnly {
+			variant = strings.TrimPrefix(kind, "switch-callee-")
+		}
+		for _, pl := range p.Pipelines {
+			for _, c := range pl.Calls {
+				if st := p.Stage(c.Callee); st != nil && hit() {
+					clone := *st
+					clone.Name = st.Name + "_ALT2"
+					if clone.Fn == "" {
+						clone.Fn = st.Name
+					}
+					clone.Outs = append([]Param{}, st.Outs...)
+					if variant == "extra-out" {
+						clone.Outs = append(clone.Outs, Param{T: IntT, Name: "verif_extra_out"})
+					} else if clone.Split {
+						clone.Split = false
+						clone.ChunkIns, clone.ChunkOuts = nil, nil
+					} else {
+						clone.Split = true
+						clone.ChunkIns = []Param{{T: IntT, Name: "verif_chunk_in"}}
+						clone.ChunkOuts = []Param{{T: IntT, Name: "verif_chunk_out"}}
+					}
+					if p.Stage(clone.Name) == nil {
+						p.Stages = append(p.Stages, &clone)
+					}
+					if !declareOnly {
+						if c.Alias == "" {
+							c.Alias = c.Callee
+						}
+						c.Callee = clone.Name
+					}
 					return true
 				}
 			}
